@@ -65,17 +65,21 @@ def rangesig(rng):
     return [hexb(rng, 2048), hexb(rng, 2048), key(rng), hexb(rng, 2048)]
 
 
-def tx_desc(rng, version, in_kinds, ring, out_tagged, rct_type, n_proofs=1, extra_len=None, lr=(0, 0)):
-    """in_kinds: list of 'gen'/'key'; ring: ring size of every key input; out_tagged: list of bools.
+def tx_desc(rng, version, in_kinds, ring, out_tagged, rct_type, n_proofs=1, extra_len=None, lr=(0, 0), rings=None):
+    """in_kinds: list of 'gen'/'key'; ring: ring size of every key input (rings: one size per input instead; the RingCT parts
+    follow the FIRST input, as the format prescribes); out_tagged: list of bools.
     Returns the token list of a WELL-FORMED transaction of that shape."""
     n_in, n_out = len(in_kinds), len(out_tagged)
-    ins = [txin(rng, k, ring) for k in in_kinds]
+    rr = list(rings) if rings else [ring] * n_in
+    if rr:
+        ring = rr[0]
+    ins = [txin(rng, k, r) for k, r in zip(in_kinds, rr)]
     outs = [txout(rng, t) for t in out_tagged]
     if extra_len is None:
         extra_len = rng.choice([0, 1, 33, 44, 127, 128, 200, 255, 256, 16383, 16384] if rng.random() < 0.15 else [0, 1, 33, 44, 127, 128, 200])
     prefix = [str(version), str(interesting_u64(rng))] + lst(ins) + lst(outs) + [hexb(rng, extra_len)]
     if version == 1:
-        rows = [lst([signature(rng) for _ in range(ring)]) for k in in_kinds if k == "key"]
+        rows = [lst([signature(rng) for _ in range(r)]) for k, r in zip(in_kinds, rr) if k == "key"]
         return prefix + lst(rows) + ["none"]
     if n_in == 0:
         return prefix + ["0", "none"]
@@ -105,7 +109,7 @@ def tx_desc(rng, version, in_kinds, ring, out_tagged, rct_type, n_proofs=1, extr
 
 
 def random_shape(rng, small=True):
-    version = rng.choice([1, 2, 2, 2, 0, 3])
+    version = rng.choice([1, 2, 2, 2, 0, 3, 1, 2, 2, 2, 0, 3, 4, 127, 128, 2 ** 32, 2 ** 64 - 1])
     sizes = [0, 1, 1, 2, 2, 3] if small else [0, 1, 2, 3, 16, 17]
     n_in = rng.choice(sizes)
     n_out = rng.choice(sizes)
@@ -119,7 +123,11 @@ def random_shape(rng, small=True):
     tagged = [rng.random() < 0.5 for _ in range(n_out)]
     n_proofs = rng.choice([0, 1, 1, 2, 3])
     lr = (rng.choice([0, 1, 6, 7]), rng.choice([0, 1, 6, 7]))
-    return dict(version=version, in_kinds=kinds, ring=ring, out_tagged=tagged, rct_type=t, n_proofs=n_proofs, lr=lr)
+    sh = dict(version=version, in_kinds=kinds, ring=ring, out_tagged=tagged, rct_type=t, n_proofs=n_proofs, lr=lr)
+    if n_in >= 2 and rng.random() < 0.3:
+        # inputs with different ring sizes (never an empty first ring: see shape_is_wf)
+        sh["rings"] = [ring] + [rng.choice([0, 1, 2, 3, 5, 11]) for _ in range(n_in - 1)]
+    return sh
 
 
 def grid_shapes():
@@ -144,6 +152,23 @@ def grid_shapes():
                 out.append(dict(version=1, in_kinds=["key"] * n_in, ring=ring, out_tagged=[False] * n_out, rct_type=0))
                 out.append(dict(version=1, in_kinds=(["gen"] + ["key"] * (n_in - 1)) if n_in else [], ring=ring,
                                 out_tagged=[True] * n_out, rct_type=0))
+    return out + mixed_ring_shapes()
+
+
+def mixed_ring_shapes():
+    """inputs whose rings differ in size: version 1 carries one signature row per key input, as long as that input's ring;
+    later versions size every ring signature after the FIRST input only"""
+    out = []
+    for rings in ([2, 3], [3, 2], [1, 2], [2, 1], [1, 2, 3], [3, 1, 2], [1, 1, 2], [2, 0], [0, 2], [11, 2, 16]):
+        out.append(dict(version=1, in_kinds=["key"] * len(rings), ring=rings[0], rings=rings, out_tagged=[False, True], rct_type=0))
+        out.append(dict(version=1, in_kinds=["gen"] + ["key"] * len(rings), ring=1, rings=[1] + rings, out_tagged=[True], rct_type=0))
+    for t in range(1, 7):
+        for rings in ([2, 3], [3, 2], [1, 2, 3], [11, 2]):
+            n_out = 2
+            out.append(dict(version=2, in_kinds=["key"] * len(rings), ring=rings[0], rings=rings,
+                            out_tagged=[i % 2 == 0 for i in range(n_out)], rct_type=t, n_proofs=1, lr=(1, 1)))
+        out.append(dict(version=2, in_kinds=["gen", "key", "key"], ring=1, rings=[1, 2, 3], out_tagged=[True], rct_type=t,
+                        n_proofs=1, lr=(1, 1)))
     return out
 
 
